@@ -335,7 +335,7 @@ PROPS["C09"] = dict(
     level_note=_MODELLED + "The image algorithm (prepost_set_mtrel) is not mirrored; distance-valued and EV+ "
                "operands are not covered yet.")
 PROPS["C11"] = dict(
-    gens=[("enum", gen.gen_C11, 1.0)], quick=50, thorough=500,
+    gens=[("enum", gen.gen_C11, 1.0), ("evplus-enum", gen.gen_C11_ev, 0.3)], quick=50, thorough=500,
     level_text="Model = the specification: the non-default entries of the evaluation table that match the mask, "
                "in lexicographic order; cardinality = their number; node/edge counts = distinct sub-diagrams of "
                "the canonical diagram. Tie: full visited sequences of dd_edge::iterator with and without masks "
@@ -389,7 +389,7 @@ PROPS["C13"] = dict(
                "heuristics are not mirrored: the model recomputes the canonical diagram; EV+ not covered yet.")
 
 PROPS["C14"] = dict(
-    gens=[("xfile", gen.gen_C14, 1.0)], quick=50, thorough=500,
+    gens=[("xfile", gen.gen_C14, 1.0), ("evplus-xfile", gen.gen_C14_ev, 0.3)], quick=50, thorough=500,
     level_text="Proved: writing a list of diagrams as numbered records (bottom-up, shared sub-diagrams written "
                "once, references only to earlier records) and reading the records back returns exactly the "
                "diagrams written, in order. Tie: mdd_writer/mdd_reader round trips into the same forest, a twin "
